@@ -133,7 +133,7 @@ def series_vals(tuples):
     return [v for _, v in tuples]
 
 
-def compute_impl(dates, floats, workdir, with_file=False):
+def compute_impl(dates, floats, workdir, with_file=False, bench=None):
     from qstrader.statistics.json_statistics import JSONStatistics
     from qstrader.statistics.tearsheet import TearsheetStatistics
     import qstrader.statistics.performance as perf
@@ -142,7 +142,8 @@ def compute_impl(dates, floats, workdir, with_file=False):
     fn = os.path.join(workdir, 'statistics.json')
     with warnings.catch_warnings():
         warnings.simplefilter('ignore')
-        js = JSONStatistics(df.copy(), alloc, periods=PERIODS, output_filename=fn)
+        bdf = None if bench is None else pd.DataFrame({'Equity': list(bench)}, index=list(dates))
+        js = JSONStatistics(df.copy(), alloc, periods=PERIODS, output_filename=fn, benchmark_curve=bdf)
         s = js.statistics['strategy']
         curve = js.equity_curve
         weekly = list(perf.aggregate_returns(curve['Returns'], 'weekly'))
@@ -159,6 +160,15 @@ def compute_impl(dates, floats, workdir, with_file=False):
         'monthly': [v for _, v in s['monthly_agg_returns']], 'yearly': [v for _, v in s['yearly_agg_returns']],
         'ts': ts, 'stats': js.statistics, 'reloaded': reloaded,
     }
+    if bench is not None:
+        b = js.statistics['benchmark']
+        out['bench'] = {
+            'returns': series_vals(b['returns']), 'cum': series_vals(b['cum_returns']), 'dd': series_vals(b['drawdowns']),
+            'max_dd': b['max_drawdown'], 'dur': b['max_drawdown_duration'], 'cagr': b['cagr'], 'sharpe': b['sharpe'],
+            'sortino': b['sortino'], 'mean': b['mean_returns'],
+            'weekly': list(perf.aggregate_returns(js.benchmark_curve['Returns'], 'weekly')),
+            'monthly': [v for _, v in b['monthly_agg_returns']], 'yearly': [v for _, v in b['yearly_agg_returns']],
+        }
     return out
 
 
@@ -176,27 +186,15 @@ def norm_json(o):
     return o
 
 
-def evaluate(case, workdir):
-    start = datetime.date.fromisoformat(case['start'])
-    vals = equity_values(case['steps'])
-    dates = bdates(start, len(vals))
-    fails = []
-
-    def bad(clause, detail):
-        fails.append({'clause': clause, 'detail': dict(detail, equity=[float(v) for v in vals], start=case['start']),
-                      'case': case})
-    try:
-        im = compute_impl(dates, [float(v) for v in vals], workdir, with_file=True)
-    except Exception as e:  # noqa
-        bad('C17.unexpected_error', {'error': repr(e)})
-        return fails
+def compare_core(im, dates, vals, bad, fails):
+    """returns, cumulative returns, aggregates, drawdowns, CAGR, Sharpe, Sortino of one curve vs the definitions"""
     ref = definitions(dates, vals)
     n = len(vals)
     for name, key in (('returns', 'returns'), ('cumulative_returns', 'cum')):
         if len(im[key]) != n or not all(feq(a, b) for a, b in zip(im[key], ref[key])):
             bad('C17.' + name, {'impl': im[key], 'ref': [float(x) for x in ref[key]]})
     if fails:
-        return fails
+        return
     # the order in which the groups are listed is not part of the statement: compare as multisets
     for name in ('monthly', 'yearly'):
         if len(im[name]) != len(ref[name]) or not all(feq(a, b) for a, b in zip(sorted(im[name]), sorted(ref[name]))):
@@ -236,6 +234,39 @@ def evaluate(case, workdir):
         so_ok = abs(float(im['sortino'])) > 1e9 or float(im['sortino']) == 0.0
     if not so_ok:
         bad('C17.sortino', {'impl': float(im['sortino']), 'ref': ref['sortino']})
+
+
+def evaluate(case, workdir):
+    start = datetime.date.fromisoformat(case['start'])
+    vals = equity_values(case['steps'])
+    dates = bdates(start, len(vals))
+    fails = []
+
+    def bad(clause, detail):
+        fails.append({'clause': clause, 'detail': dict(detail, equity=[float(v) for v in vals], start=case['start']),
+                      'case': case})
+    try:
+        im = compute_impl(dates, [float(v) for v in vals], workdir, with_file=True)
+    except Exception as e:  # noqa
+        bad('C17.unexpected_error', {'error': repr(e)})
+        return fails
+    # the strategy curve, and a second curve given as the optional benchmark (same dates, other values)
+    bvals = equity_values(list(reversed(case['steps'])))
+    try:
+        imb = compute_impl(dates, [float(v) for v in vals], workdir, bench=[float(v) for v in bvals])
+    except Exception as e:  # noqa
+        bad('C17.unexpected_error', {'error': repr(e), 'with': 'benchmark_curve'})
+        return fails
+    n = len(vals)
+    compare_core(im, dates, vals, bad, fails)
+    if fails:
+        return fails
+
+    def bad_b(clause, detail):
+        bad(clause, dict(detail, curve='benchmark_curve', benchmark_equity=[float(v) for v in bvals]))
+    compare_core(imb['bench'], dates, bvals, bad_b, fails)
+    if fails:
+        return fails
     # tearsheet reports the same numbers as the JSON export
     ts = im['ts']
     pairs = [('sharpe', ts['sharpe'], im['sharpe']), ('max_drawdown', ts['max_drawdown'], im['max_dd']),
